@@ -2102,6 +2102,12 @@ class Interp:
             return self.eq(a, b)
         if isinstance(a, bool) and isinstance(b, bool):
             return a == b
+        heap = (list, dict, set, Tok, FuncVal, Builtin, BoundMethod)
+        if isinstance(a, heap) and isinstance(b, heap):
+            return a is b            # two objects of the interpreted heap: identity is identity
+        if (isinstance(a, Tok) and a.name.startswith("object#") and not is_symbolic(b)) or \
+                (isinstance(b, Tok) and b.name.startswith("object#") and not is_symbolic(a)):
+            return a is b            # a fresh object() is identical to nothing else
         raise Unsupported("'is' on %r / %r" % (type(a).__name__, type(b).__name__))
 
     def e_Call(self, e, fr):
